@@ -99,12 +99,16 @@ class Routes:
                 d = I.result(d) if d >= 0 else d
             return float(d)
         if route == 'matrix':
+            # without psi the pair is the LAST pair of a 4-series collection, so that a bound left behind by earlier pairs reaches it
+            lead = case.get('psi') is None
             if eng == 'py':
-                m = core.call(dtw.distance_matrix, [a1, a2], compact=True, **kw)
+                coll = [a1[:1], a2[:1], a1, a2] if lead else [a1, a2]
+                m = core.call(dtw.distance_matrix, coll, compact=True, **kw)
             else:
-                m = core.call(dtw.distance_matrix, [np.array(case['s1'], dtype=float), np.array(case['s2'], dtype=float)],
-                              compact=True, use_c=True, **kw)
-            return m if isinstance(m, core.Exc) else m[0]
+                n1, n2 = np.array(case['s1'], dtype=float), np.array(case['s2'], dtype=float)
+                coll = [n1[:1].copy(), n2[:1].copy(), n1, n2] if lead else [n1, n2]
+                m = core.call(dtw.distance_matrix, coll, compact=True, use_c=True, **kw)
+            return m if isinstance(m, core.Exc) else m[5 if lead else 0]
         raise KeyError(name)
 
 
@@ -224,8 +228,76 @@ def universe(tier, seed, shard, nshards):
                                                 'penalty': pen, 'psi': psi, 'max_step': ms, 'inner': 'sq' if (k1 + k2) % 2 == 0 else 'eu'}
 
 
+def check_ndim(acc, E, s1, s2, w, psi, inner):
+    """Multivariate series: max_dist in the gaps around the distance and the Euclidean bound, and use_pruning, through
+    dtw_ndim.distance / warping_paths in both engines (reference: vector point distances, vf.oracles)."""
+    np, dn = E['np'], E['dtw_ndim']
+    name = INNERS[inner]
+    d = oracles.dtw_ref(s1, s2, window=w, psi=psi, inner_dist=name, ndim=True)
+    ed = oracles.ed_ref(s1, s2, name, ndim=True)
+    a1, a2 = np.array(s1, dtype=float), np.array(s2, dtype=float)
+    kw = {'inner_dist': name}
+    if w is not None:
+        kw['window'] = w
+    if psi is not None:
+        kw['psi'] = psi
+    case = {'s1': s1, 's2': s2, 'ndim': len(s1[0]), 'window': w, 'psi': psi, 'inner': inner}
+    vals = sorted(set(v for v in (d, ed) if v < inf))
+    ths = ([vals[0] / 2.0] if vals and vals[0] > 1e-3 else []) + [(a + b) / 2.0 for a, b in zip(vals, vals[1:]) if b - a > 1e-6] + [(vals[-1] if vals else 0.0) + 0.75]
+    routes = [('py.distance', lambda **k: dn.distance(a1, a2, **k)), ('c.distance', lambda **k: dn.distance_fast(a1, a2, **k)),
+              ('py.wps', lambda **k: dn.warping_paths(a1, a2, **k)[0]), ('c.wps', lambda **k: dn.warping_paths_fast(a1, a2, **k)[0]),
+              ('c.matrix', lambda **k: dn.distance_matrix([a1[:1].copy(), a2[:1].copy(), a1, a2] if psi is None else [a1, a2], compact=True, use_c=True, **k)[5 if psi is None else 0])]
+    for rname, f in routes:
+        eng = rname.split('.')[0]
+        tags = {'route': rname.split('.')[1], 'ndim': case['ndim'], 'inner': inner, 'equal_len': len(s1) == len(s2), 'window_lt_full': bool(w), 'psi_on': psi is not None}
+        for m in ths:
+            got = core.call(f, max_dist=m, **kw)
+            acc.trans()
+            acc.valid()
+            if d == inf or d > m * (1 + 1e-9):
+                exp = inf
+            elif d < m * (1 - 1e-9):
+                exp = d
+            else:
+                continue
+            if isinstance(got, core.Exc) or not (got == exp or (exp != inf and core.ulp_close(float(got), exp, 4, 1e-12))):
+                acc.violation('max_dist', 'ndim.' + rname, eng, dict(tags, kind='max_dist'), dict(case, max_dist=m), exp, repr(got) if isinstance(got, core.Exc) else float(got))
+        got = core.call(f, use_pruning=True, **kw)
+        acc.trans()
+        acc.valid()
+        if isinstance(got, core.Exc) or not (got == d or (d != inf and core.ulp_close(float(got), d, 4, 1e-12))):
+            acc.violation('use_pruning', 'ndim.' + rname, eng, dict(tags, kind='use_pruning', dtw_eq_ub=bool(d != inf and core.ulp_close(d, ed, 8))),
+                          dict(case, use_pruning=True), d, repr(got) if isinstance(got, core.Exc) else float(got))
+    return d < ed
+
+
+def universe_ndim(tier, seed, shard, nshards):
+    A2 = univ.alphabet(univ.BASE2, seed)
+    sers = univ.series_nd(A2, 2, 1, 3)
+    idx = 0
+    for s1 in sers:
+        for s2 in sers:
+            if len(s1) + len(s2) > (6 if tier == 'thorough' else 5):
+                continue
+            idx += 1
+            if idx % nshards != shard:
+                continue
+            for w in (None, 1):
+                for psi in (None, 1):
+                    if psi is not None and oracles.psi_degenerate(oracles.norm_psi(psi), len(s1), len(s2)):
+                        continue
+                    for inner in ('sq', 'eu'):
+                        yield s1, s2, w, psi, inner
+
+
 def worker(acc, shard, nshards, tier, seed):
     R = Routes()
+    import numpy as np
+    from dtaidistance import dtw_ndim
+    E = {'np': np, 'dtw_ndim': dtw_ndim}
+    for s1, s2, w, psi, inner in universe_ndim(tier, seed, shard, nshards):
+        nt = check_ndim(acc, E, s1, s2, w, psi, inner)
+        acc.case('U4-ndim', nontrivial=nt)
     for sub, case in universe(tier, seed, shard, nshards):
         r, c = len(case['s1']), len(case['s2'])
         do_prune = case.get('max_step') is None and (case.get('penalty') is None or r == c)
@@ -245,7 +317,7 @@ def run(ctx):
              'warping_paths keep_int_repr, compact, distance_matrix); non-trivial = some threshold or the Euclidean bound lies below the '
              'accumulated optimum of an in-band cell (so pruning has something to cut)',
         bounds={'alphabet': list(univ.alphabet(univ.BASE3, ctx.seed)),
-                'U1': 'all pairs len 1..%d x window{None,1,2} x penalty{None,.5} x max_step{None, 2|a| (separates squared from unsquared comparisons)} x inner x 9 psi forms (symmetric and one-sided, begin and end)' % (4 if ctx.thorough else 3),
+                'U4': 'all pairs of 2-vector series over a 2-letter alphabet, lengths 1..3 (sum <= 5; 6 in thorough) x window{None,1} x psi{None,1} x inner: max_dist in every gap and use_pruning through dtw_ndim distance / warping_paths / C matrix', 'U1': 'all pairs len 1..%d x window{None,1,2} x penalty{None,.5} x max_step{None, 2|a| (separates squared from unsquared comparisons)} x inner x 9 psi forms (symmetric and one-sided, begin and end)' % (4 if ctx.thorough else 3),
                 'U3': 'all shapes up to %d x every window x 13 psi forms x catalogue values' % (6 if ctx.thorough else 5),
                 'thresholds': 'one in every gap (> 1e-6 relative) between consecutive distinct values of {cell optima, distance, Euclidean bound}, one below, one above',
                 'use_pruning': 'only where C03 calls the bound valid: no max_step, and no penalty or equal lengths; alone and combined with every second threshold as max_dist (judged only when the distance is below the threshold: above it the documentation lets use_pruning override max_dist)'},
